@@ -12,7 +12,7 @@ the function is tied by the correspondence only.
 Grammar (everything else is refused)
   statements   x = e | a, b = e | x op= e (+ -) | l[i] = e | l[a:b] = e | t1[s1], t2[s2] = e1, e2 | l.append(e) | l.extend(e)
                | l.insert(i, e) | x = l.pop() | d[k].append(e) | d[k] = e | if/elif/else | for <name or tuple> in <iterable>
-               | while <pure condition> | return e | raise IndexError/ValueError(<message>) | nested def (closure over names
+               | while <pure condition> (the body must contain a draw site or a direct item read l[i]) | return e | raise IndexError/ValueError(<message>) | nested def (closure over names
                the enclosing function never rebinds) | try: <one assignment> except IndexError: <re-raise IndexError> | docstrings
                | `if x is None: x = e` for an optional parameter | isinstance(key, slice) decided by the declared type of key
   iterables    a list / tree | range(n) | enumerate(l[, start]) | reversed(l) | l[a:b]
@@ -1419,8 +1419,16 @@ class Tr(object):
         if draws:
             head = "while_draws"
         else:
-            if not read:
-                refuse(s, "while loop that neither draws nor reads a list: no fuel measure")
+            # the lengths of the lists bound the iterations only when every iteration reads an item l[i] of one of
+            # them directly (the IndexError at the end of the list is what stops a runaway index); a loop that counts
+            # an int down, or reaches the lists only through calls / slices, has no fuel measure here
+            direct = [n for n in self.own_nodes(list(s.body))
+                      if isinstance(n, ast.Subscript) and isinstance(n.ctx, ast.Load) and isinstance(n.value, ast.Name)
+                      and n.value.id in read and not isinstance(n.slice, ast.Slice)
+                      and (self.env.get(n.slice.id) == "Z" if isinstance(n.slice, ast.Name)
+                           else isinstance(n.slice, (ast.BinOp, ast.Constant)))]
+            if not read or not direct:
+                refuse(s, "while loop that neither draws nor reads an item l[i] of a list: no fuel measure")
             fuel = " + ".join("length %s" % cn(r) for r in sorted(read))
             head = "while_fuel (S (%s)%%nat)" % fuel
         m = "%s (fun %s => %s) (fun %s =>\n%s) %s" % (head, self.pat(allv), cond, self.pat(allv), body, init)
